@@ -18,7 +18,8 @@ import (
 
 func init() {
 	register(&Check{
-		ID: "C10", Level: "exploration", Configs: []string{"clean", "clean", "foreign"},
+		ID:      "C10",
+		Tenants: func(c *core.Ctx, i int) tenant { return tenantCodec(c, kH264, kH264AVC) }, Level: "exploration", Configs: []string{"clean", "clean", "foreign"},
 		Run:         runC10,
 		QuickRuns:   600_000,
 		ThoroughSec: 600,
